@@ -100,7 +100,7 @@ func VerifC16NewProxy() {
 	case "tcpmux":
 		muxOn = zzverif.Bool("tcpmuxPort")
 		domainFields()
-		m.Multiplexer = []string{"", "httpconnect", "zz"}[zzverif.Choice("multiplexer", 3)]
+		m.Multiplexer = []string{"", "httpconnect", "zz", "HTTPConnect"}[zzverif.Choice("multiplexer", 4)]
 		m.RouteByHTTPUser = zzverif.StringUpTo("routeUser", 1, "u")
 		m.HTTPUser = zzverif.StringUpTo("httpUser", 1, "u")
 		m.Group = []string{"", "g"}[zzverif.Choice("group", 2)]
